@@ -119,7 +119,7 @@ check("C15", "controller",
 check("C18", "authfail",
       "TLA+ spec AuthFail.tla (guard coverage of deny / auth-intercept rules) + MapLookup.tla; TLC enumerates the product of auth-url / oauth / "
       "placement / path type / Lua / auth-proxy range values; the real pipeline writes each configuration; TLC judges every request (TraceAuth.tla)",
-      "Exhaustive enumerated-input contract validation over 5760 annotation combinations (incl. auth-url values with blanks or quotes, the unprotected path sorting before or after the protected one, CORS on the unprotected path) x 7 requests: a request the documented routing gives to the "
+      "Exhaustive enumerated-input contract validation over 11520 annotation combinations (incl. an auth-url on the other path of the backend, auth-url values with blanks or quotes, the unprotected path sorting before or after the protected one, CORS on the unprotected path) x 7 requests: a request the documented routing gives to the "
       "protected path must be covered by a deny, or by an auth-intercept followed by deny/redirect-unless-successful, in the frontend or in the "
       "backend section; the protected path shares its backend with an unprotected one.",
       ENUM_NOTE + "ACL semantics are transcribed; auth-request.lua is not executed.", "DESIGN.md 6 C18")
